@@ -120,6 +120,9 @@ class Adts:
             nongen = [v for v in cs if '::generated::' not in v['path']]
             if len(nongen) == 1:
                 return nongen[0]
+            strong = [v for v in cs if len(segs) > 1 and _subseq(segs[:-1], v['path'].split('::')[:-1])]
+            if len(strong) == 1:
+                return strong[0]
             return None
         nongen = [v for v in cands if '::generated::' not in v['path']]
         if nongen:
